@@ -248,7 +248,10 @@ package dna
 //@   hint !m.gamma && tnTot(m, seq1, seq2, weights) != 0.0 && tnE1(m, seq1, seq2, weights) > 0.0 && tnE2(m, seq1, seq2, weights) > 0.0 && tnE3(m, seq1, seq2, weights) > 0.0 ==> isfin(b1) && isfin(b2) && isfin(b3) && fin(b3) == 0.0 - ln(tnE3(m, seq1, seq2, weights)) && fin(b1) == tnY(m) / tnR(m) * ln(tnE3(m, seq1, seq2, weights)) - 1.0 / tnR(m) * ln(tnE1(m, seq1, seq2, weights)) && fin(b2) == tnR(m) / tnY(m) * ln(tnE3(m, seq1, seq2, weights)) - 1.0 / tnY(m) * ln(tnE2(m, seq1, seq2, weights))
 // NOT DISCHARGED (nonlinear identity between the code's b1/b2/b3/y form and the published form; listed under not_covered):
 // ensures !m.gamma && tnTot(m, seq1, seq2, weights) != 0.0 && tnE1(m, seq1, seq2, weights) > 0.0 && tnE2(m, seq1, seq2, weights) > 0.0 && tnE3(m, seq1, seq2, weights) > 0.0 ==> isfin(result0) && fin(result0) == clamp0(0.0 - (2.0 * tnA(m) * tnG(m) / tnR(m)) * ln(tnE1(m, seq1, seq2, weights)) - (2.0 * tnC(m) * tnT(m) / tnY(m)) * ln(tnE2(m, seq1, seq2, weights)) - 2.0 * (tnR(m) * tnY(m) - tnA(m) * tnG(m) * tnY(m) / tnR(m) - tnC(m) * tnT(m) * tnR(m) / tnY(m)) * ln(tnE3(m, seq1, seq2, weights)))
-//@   ensures !m.gamma && (tnTot(m, seq1, seq2, weights) == 0.0 || tnE1(m, seq1, seq2, weights) < 0.0 || tnE2(m, seq1, seq2, weights) < 0.0 || tnE3(m, seq1, seq2, weights) < 0.0) ==> !isfin(result0)
+//@   ensures !m.gamma && tnTot(m, seq1, seq2, weights) == 0.0 ==> !isfin(result0)
+//@   ensures !m.gamma && tnTot(m, seq1, seq2, weights) != 0.0 && tnE1(m, seq1, seq2, weights) < 0.0 ==> !isfin(result0)
+//@   ensures !m.gamma && tnTot(m, seq1, seq2, weights) != 0.0 && tnE2(m, seq1, seq2, weights) < 0.0 ==> !isfin(result0)
+//@   ensures !m.gamma && tnTot(m, seq1, seq2, weights) != 0.0 && tnE3(m, seq1, seq2, weights) < 0.0 ==> !isfin(result0)
 //@   modifies nothing
 
 //@ func (*RawDistModel).Distance
